@@ -90,6 +90,31 @@ pub struct C09;
 
 /// choose where to cut the valid program: prefer a position of the requested
 /// class relative to the wrap point of a window of size `dict`
+/// Encoded bytes of an LZMA2-variant case (None for the LZMA variants).
+pub fn lzma2_case_bytes(c: &Case) -> Option<Vec<u8>> {
+    match c {
+        Case::Lzma2 { before, reset, props, prefix, bad, tail, .. } => {
+            let mut chunks = before.clone();
+            let mut ops = prefix.clone();
+            ops.push(*bad);
+            ops.extend(tail.iter().map(|b| Op::Lit(*b)));
+            chunks.push(Chunk::Lzma { reset: *reset, props: *props, ops });
+            write_lzma2(&chunks, false).ok().map(|e| e.bytes)
+        }
+        Case::StaleRepLiteral { before, raw_len, lits, .. } => {
+            let mut chunks = before.clone();
+            chunks.push(Chunk::Raw { reset_dict: true, data: (0..*raw_len).map(|i| 0xC3u8.wrapping_add(i as u8)).collect() });
+            let props = match before.last() {
+                Some(Chunk::Lzma { props, .. }) => *props,
+                _ => return None,
+            };
+            chunks.push(Chunk::Lzma { reset: Reset::None, props, ops: lits.iter().map(|b| Op::Lit(*b)).collect() });
+            crate::refmodel::lzma2::write_lzma2_lenient(&chunks).ok().map(|e| e.bytes)
+        }
+        _ => None,
+    }
+}
+
 fn choose_cut(ops: &[Op], dict: u64, cut_class: u8, sel: u16) -> usize {
     // produced after each prefix length
     let mut produced = vec![0u64];
